@@ -44,6 +44,8 @@ func spinc(x) { f := func() { return x }; for i := 0; i < 100000000; i++ { x = x
 func imp(k) { import cmod; return cmod.value + cmod.pre + k }
 func imp2(k) { import cmod2; return cmod2.answer + k }
 func impslow(k) { x := 0; for i := 0; i < 6; i++ { x++ }; import cmod2; for i := 0; i < 100000000; i++ { x++ }; return cmod2.answer + x }
+func spimp(k) { t := spawn(func() { import cmod3; return cmod3.bump() }); return t.wait() + k }
+func imp3(k) { import cmod3; return cmod3.bump() + k }
 gx := 0
 func setg(v) { gx = v; return gx }
 func nestg() { inner := func() { deeper := func() { return gx }; return deeper() + 0 }; return inner() }
@@ -54,6 +56,8 @@ func waitw(k) { return worker.wait() + wfirst - 7 + k }
 `
 
 const c07Module2 = "first := 1\nfunc helper(a) { return a * 2 }\nsecond := helper(first)\nanswer := 40 + second\n"
+
+const c07Module3 = "n := 0\nfunc bump() { n = n + 1; return n }\n"
 
 const c07Module = "pre := 1\nmaybe_fail()\nvalue := 3\n"
 
@@ -83,6 +87,7 @@ type invocation struct {
 	FailImport bool // the module imported by this call fails in its body
 	Background bool // runs under context.Background(), which can never be cancelled
 	CtxOS      bool // the invocation's context carries an OS of its own (WHO=req<k>)
+	NoOpts     bool // RunCode without options: the VM keeps what an earlier RunCode configured
 	Stateful   bool // a Call that changes globals and must be replayed on the model
 	OwnDelta   int  // for cancelled/deadline: steps after start at which the fault lands
 	// stale cancels: earlier invocation index -> delta steps after this
@@ -130,6 +135,8 @@ func genHistory(g *sim.Stream, f *sim.Stream) []*invocation {
 	// further Runs (which have nothing left to execute)
 	mainFamily := g.Chance(1, 3)
 	followImport := false
+	sawRunCode := false
+	mod3Loaded := false // the VM itself (not only a clone) has imported cmod3
 	// theme: a global written through one function and read through functions
 	// nested in another, with repeated Runs in between
 	themeNested := mainFamily && g.Chance(1, 4)
@@ -205,7 +212,17 @@ func genHistory(g *sim.Stream, f *sim.Stream) []*invocation {
 			iv.API = "Call"
 			switch kind {
 			case kNormal:
-				switch g.Intn(12) {
+				switch g.Intn(14) {
+				case 12:
+					// a thread spawned by this invocation imports a module the VM
+					// itself has not imported (the clone's table is its own)
+					// (stateful once the VM itself has imported the module: the clone
+					// then shares it, by design)
+					iv.Fn, iv.Args, iv.Stateful = "spimp", []int{g.Intn(9)}, mod3Loaded
+				case 13:
+					// stateful: the module stays imported, its counter keeps counting
+					iv.Fn, iv.Args, iv.Stateful = "imp3", []int{g.Intn(9)}, true
+					mod3Loaded = true
 				case 9:
 					// a global written through one function and read by a function
 					// nested two levels deep
@@ -278,6 +295,9 @@ func genHistory(g *sim.Stream, f *sim.Stream) []*invocation {
 				if g.Chance(1, 2) {
 					iv.IsLib = true
 					iv.Src = c07Lib + fmt.Sprintf("\n%d\n", 1000+g.Intn(1000))
+				} else if g.Chance(1, 5) {
+					// every run of this script imports the module afresh
+					iv.Src = "import cmod3\n[cmod3.bump(), cmod3.bump()]"
 				} else if g.Chance(1, 4) {
 					// a module the host supplied as a global is importable in every run
 					iv.Src = "import os\nos.getenv(\"WHO\")"
@@ -323,6 +343,13 @@ func genHistory(g *sim.Stream, f *sim.Stream) []*invocation {
 					iv.Stale[j] = 1 + f.Intn(600)
 				}
 			}
+		}
+		if iv.API == "RunCode" && sawRunCode && g.Chance(1, 3) {
+			iv.NoOpts = true
+		}
+		if iv.API == "RunCode" {
+			sawRunCode = true
+			mod3Loaded = false
 		}
 		hist = append(hist, iv)
 		if iv.API == "RunCode" {
@@ -394,6 +421,13 @@ func compileSrc(src string, cfg *risor.Config) *compiler.Code {
 }
 
 // runInv performs one invocation on machine m.
+// withOpts is the invocation as a fresh VM must receive it: with its options.
+func withOpts(iv *invocation) *invocation {
+	c := *iv
+	c.NoOpts = false
+	return &c
+}
+
 func runInv(ctx context.Context, m *vm.VirtualMachine, cfg *risor.Config, failImport *atomic.Bool, iv *invocation, code *compiler.Code) (res invResult) {
 	failImport.Store(iv.FailImport)
 	defer func() {
@@ -412,7 +446,11 @@ func runInv(ctx context.Context, m *vm.VirtualMachine, cfg *risor.Config, failIm
 		return invResult{Val: inspectOrNil(tos)}
 	}
 	if iv.API == "RunCode" {
-		if err := m.RunCode(ctx, code, cfg.VMOpts()...); err != nil {
+		opts := cfg.VMOpts()
+		if iv.NoOpts {
+			opts = nil
+		}
+		if err := m.RunCode(ctx, code, opts...); err != nil {
 			return invResult{Err: err.Error(), Raw: err}
 		}
 		tos, ok := m.TOS()
@@ -477,6 +515,7 @@ func c07ModuleDir() string {
 		}
 		os.WriteFile(d+"/cmod.risor", []byte(c07Module), 0o644)
 		os.WriteFile(d+"/cmod2.risor", []byte(c07Module2), 0o644)
+		os.WriteFile(d+"/cmod3.risor", []byte(c07Module3), 0o644)
 		c07Dir = d
 	})
 	return c07Dir
@@ -511,7 +550,7 @@ func runC07(rc *fw.RunCtx) {
 		gnames = append(gnames, k)
 	}
 	sort.Strings(gnames)
-	mfs := fstest.MapFS{"cmod.risor": &fstest.MapFile{Data: []byte(c07Module)}, "cmod2.risor": &fstest.MapFile{Data: []byte(c07Module2)}}
+	mfs := fstest.MapFS{"cmod.risor": &fstest.MapFile{Data: []byte(c07Module)}, "cmod2.risor": &fstest.MapFile{Data: []byte(c07Module2)}, "cmod3.risor": &fstest.MapFile{Data: []byte(c07Module3)}}
 	// modules come from FSImporter over an in-memory tree or from LocalImporter
 	// over a scratch directory
 	useLocal := g.Chance(1, 3)
@@ -578,19 +617,19 @@ func runC07(rc *fw.RunCtx) {
 				m := newMachine(cfgModel)
 				bg := context.Background()
 				if iv.API == "Call" || (iv.API == "Run" && !iv.IsLib) {
-					r := runInv(bg, m, cfgModel, &failImport, hist[libIdx], codes[libIdx])
+					r := runInv(bg, m, cfgModel, &failImport, withOpts(hist[libIdx]), codes[libIdx])
 					if r.Err != "" {
 						panic("harness: model library failed: " + r.Err)
 					}
 					for _, j := range stateful {
-						runInv(bg, m, cfgModel, &failImport, hist[j], nil)
+						runInv(bg, m, cfgModel, &failImport, withOpts(hist[j]), nil)
 					}
 				}
 				ctxK := bg
 				if iv.CtxOS {
 					ctxK = ros.WithOS(bg, c07ReqOS(k))
 				}
-				expected[k] = runInv(ctxK, m, cfgModel, &failImport, iv, codes[k])
+				expected[k] = runInv(ctxK, m, cfgModel, &failImport, withOpts(iv), codes[k])
 			}
 			if iv.API == "RunCode" || (iv.API == "Run" && iv.IsLib) {
 				if iv.IsLib && iv.Kind == kNormal {
